@@ -428,6 +428,8 @@ class Model(object):
         if hasattr(self.domain_geometry, 'gradient'):
             grad = self.domain_geometry.gradient(grad, wrt_par)
             grad_is_par = True # Gradient is parameters
+            # (representation flags inherited from the operands do not describe the result)
+            if isinstance(grad, CUQIarray): grad = grad.to_numpy()
 
         # we convert the computed gradient to parameters
         grad = self._2par(grad,
